@@ -44,7 +44,7 @@ const (
 
 // ---------------------------------------------------------------- generator
 
-var lossKinds = []string{"none", "none", "p10", "p30", "p60", "total", "dead:0", "dead:3", "dead:8", "dead:20", "oneway"}
+var lossKinds = []string{"none", "none", "p10", "p30", "p60", "total", "dead:0", "dead:3", "dead:8", "dead:20", "oneway", "werr:0", "werr:2", "werr:6"}
 
 func gen(g *GenCtx) {
 	// hvlib's streams for neighbouring seeds are shifted copies of one another and re-synchronise;
@@ -89,6 +89,12 @@ func gen(g *GenCtx) {
 	emit("r", "total", 1, [][]string{{"a", "c0"}, {"a", "w0:10"}, {"a", "sl:100", "stop"}, {"b", "sl:100", "stop"}})
 	emit("r", "oneway", 0, [][]string{{"a", "c0", "wc0"}, {"b", "r0:10", "c0", "wc0"}, {"a", "sl:1500", "stop"}, {"b", "sl:1500", "stop"}})
 
+	// the transport starts to fail writes while frames are unacknowledged: the muxer's sender gives up and
+	// drains, the tubes' retransmissions keep coming, Stop must still return
+	for _, k := range []int{0, 1, 2, 4} {
+		emit("r", fmt.Sprintf("werr:%d", k), 0, [][]string{{"a", "w0:3000", "w0:10", "sl:600", "stop"}, {"b", "sl:100", "w0:50", "sl:900", "stop"}})
+		emit("rr", fmt.Sprintf("werr:%d", k), 0, [][]string{{"a", "w0:100", "w1:100", "sl:450", "c0", "stop"}, {"b", "r0:10", "sl:1500", "stop"}})
+	}
 	// tubes opened and closed at once while the program runs (Close racing with the initiation
 	// goroutine's first steps and with the peer's answer), on a healthy and on a dead network
 	for _, loss := range []string{"none", "none", "p30", "total"} {
@@ -243,6 +249,19 @@ func (c *memConn) setLoss(on bool) {
 	c.mu.Unlock()
 }
 
+// loss "werr:<k>": after k datagrams every write on this connection FAILS (a connected UDP socket whose
+// peer is gone reports ECONNREFUSED), nothing arrives any more either
+func (c *memConn) writeFails() bool {
+	c.mu.Lock()
+	defer c.mu.Unlock()
+	if !c.lossOn || !strings.HasPrefix(c.loss, "werr:") {
+		return false
+	}
+	k, _ := strconv.Atoi(c.loss[5:])
+	c.sent++
+	return c.sent > k
+}
+
 func (c *memConn) drop() bool {
 	c.mu.Lock()
 	defer c.mu.Unlock()
@@ -251,7 +270,7 @@ func (c *memConn) drop() bool {
 	}
 	c.sent++
 	switch {
-	case c.loss == "none" || strings.HasPrefix(c.loss, "spike:"):
+	case c.loss == "none" || strings.HasPrefix(c.loss, "spike:") || strings.HasPrefix(c.loss, "werr:"):
 		return false
 	case c.loss == "total":
 		return true
@@ -308,6 +327,9 @@ func (c *memConn) WriteMsg(b []byte) error {
 	case <-c.closed:
 		return net.ErrClosed
 	default:
+	}
+	if c.writeFails() {
+		return &net.OpError{Op: "write", Net: "mem", Err: errors.New("connection refused")}
 	}
 	if c.drop() {
 		return nil
